@@ -234,6 +234,92 @@ pub fn c01_ghost(full: bool) -> ChatScn {
     s
 }
 
+/// "Exactly one copy ... with the text as sent", also for a text that fills the line: the
+/// relayed line is longer than the received one (it carries the sender's prefix) and still
+/// arrives whole. One case = (verb, target kind, length of the whole line sent).
+pub fn c01_long_case(verb: &str, target: &str, line_len: usize) -> Vec<Finding> {
+    let mut out = vec![];
+    let mut w = World::new(Cfg::default().main_config(), 4);
+    macro_rules! m {
+        ($e:expr) => {
+            match $e {
+                Ok(v) => v,
+                Err(e) => return vec![finding("machinery", e.0)],
+            }
+        };
+    }
+    m!(w.register(0, "alice", "au"));
+    m!(w.register(1, "bob", "bu"));
+    m!(w.register(2, "carol", "cu"));
+    m!(w.register(3, "dave", "du"));
+    for s in 0..3 {
+        m!(w.send(s, "JOIN #x"));
+    }
+    m!(w.send(0, "MODE #x +v bob"));
+    w.take_all();
+    let head = format!("{} {} :", verb, target);
+    if line_len <= head.len() + 8 {
+        return out;
+    }
+    let mut text: String = "abcdefghijklmnopqrstuvwxy".chars().cycle().take(line_len - head.len() - 7).collect();
+    text.push_str("THE-END");
+    m!(w.send(0, &format!("{}{}", head, text)));
+    let receivers: Vec<usize> = match target {
+        "bob" => vec![1],
+        "#x" => vec![1, 2],
+        "+#x" => vec![1],
+        _ => vec![],
+    };
+    for slot in 1..4 {
+        let got: Vec<crate::canon::Msg> = w.take_lines(slot).iter().filter_map(|l| crate::canon::parse_server_line(l)).filter(|m| m.cmd == verb).collect();
+        if receivers.contains(&slot) {
+            if got.len() != 1 {
+                out.push(finding("long:copies", format!("{} {} with a line of {} bytes: receiver slot {} got {} copies", verb, target, line_len, slot, got.len())));
+            } else if got[0].params.last().map(|s| s.as_str()) != Some(text.as_str()) || got[0].prefix.as_deref() != Some("alice!~au@127.0.0.1") {
+                out.push(finding("long:text", format!("{} {} with a line of {} bytes (text of {}): receiver slot {} got a text of {} bytes from {:?}", verb, target, line_len, text.len(), slot, got[0].params.last().map_or(0, |s| s.len()), got[0].prefix)));
+            }
+        } else if !got.is_empty() {
+            out.push(finding("long:stray", format!("{} {}: slot {} is not addressed but got a copy", verb, target, slot)));
+        }
+    }
+    let mine = w.take_lines(0);
+    if mine.iter().any(|l| l.contains(verb)) {
+        out.push(finding("long:stray", format!("{} {}: the sender got its own message back", verb, target)));
+    }
+    for (i, c) in w.conns.iter().enumerate() {
+        if let Life::Panicked(msg) = &c.life {
+            out.push(finding("long:panic", format!("connection {} aborted: {}", i, msg)));
+        }
+    }
+    out
+}
+
+fn c01_long_part(quick: bool) -> PartResult {
+    let t0 = Instant::now();
+    let name = "fun:c01-long-text";
+    let mut r = PartResult::new(name, "E-FUN");
+    let lens: Vec<usize> = if quick { (1966..=1998).step_by(2).collect() } else { (1900..=1998).collect() };
+    for verb in ["PRIVMSG", "NOTICE"] {
+        for target in ["bob", "#x", "+#x"] {
+            for n in lens.iter().copied().chain([64usize, 512, 1024]) {
+                r.evaluations += 1;
+                for f in c01_long_case(verb, target, n) {
+                    r.violations.push(Violation { scenario: name.into(), sig: f.sig, detail: f.detail, history: vec![], transcript: vec![json!({"verb": verb, "target": target, "line_len": n}).to_string()] });
+                }
+            }
+        }
+    }
+    r.violations.truncate(40);
+    r.states = r.evaluations;
+    r.transitions = r.evaluations;
+    r.distinct = r.evaluations;
+    r.traces = r.evaluations;
+    r.exhaustive = true;
+    r.samples = vec![json!({"verb": "PRIVMSG", "target": "#x", "line_len": 1996, "expect": "bob and carol each get one copy with the whole text, prefixed alice!~au@127.0.0.1"})];
+    r.wall_s = t0.elapsed().as_secs_f64();
+    r
+}
+
 // ---------------------------------------------------------------------------
 // C10
 
@@ -308,6 +394,10 @@ pub fn c10_pre_scn(name: &str, full: bool) -> ChatScn {
     for t in a {
         s.alphabet_for.push((0, t));
     }
+    // voice is also given and taken by a half-operator (bob's configured rank)
+    for t in ["MODE #m -v carol", "MODE #m +v carol", "MODE #m -v bob"] {
+        s.alphabet_for.push((1, t));
+    }
     s.focus = Focus::state_only(&[Cat::Membership, Cat::Ranks, Cat::ChanFlags, Cat::ChanConfig]);
     s.invariants = vec!["rank-set", "membership-symmetry"];
     for slot in 0..3 {
@@ -341,7 +431,7 @@ pub fn c07_scn(name: &str, full: bool) -> ChatScn {
     // carol is a second member from the start: a limit can be set below the occupancy
     let mut s = ChatScn::new(name, cfg, vec![part(0, "alice", "alicia", "au"), part(1, "bob", "bobby", "bu"), part(2, "carol", "caro", "cu")], 0);
     s.prelude = vec![(0, "JOIN #c".into()), (2, "JOIN #c".into())];
-    let mut a: Vec<&'static str> = vec!["MODE #c +i", "MODE #c -i", "MODE #c +k k", "MODE #c +k j", "MODE #c -k", "MODE #c +b bob!*@*", "MODE #c -b bob!*@*", "MODE #c +e bob!*@*", "MODE #c -e bob!*@*", "MODE #c +e zed!*@*", "MODE #c +I bob!*@*", "MODE #c -I bob", "MODE #c +l 1", "MODE #c +l 2", "MODE #c +l 3", "MODE #c -l", "INVITE bob #c", "INVITE bobby #c", "KICK #c bob",
+    let mut a: Vec<&'static str> = vec!["MODE #c +i", "MODE #c -i", "MODE #c +k k", "MODE #c +k j", "MODE #c -k", "MODE #c +b bob!*@*", "MODE #c -b bob!*@*", "MODE #c +e bob!*@*", "MODE #c -e bob!*@*", "MODE #c +e zed!*@*", "MODE #c +I bob!*@*", "MODE #c -I bob", "MODE #c +l 0", "MODE #c +l 1", "MODE #c +l 2", "MODE #c +l 3", "MODE #c -l", "INVITE bob #c", "INVITE bobby #c", "KICK #c bob",
         // a second invite-only channel: invitations are held per channel
         "JOIN #d", "MODE #d +i", "INVITE bob #d",
         // ... and an invitation can outlive the channel it was for (the inviter leaves, the channel
@@ -382,7 +472,7 @@ pub fn c07_product(full: bool) -> Vec<Script> {
                     for inv_only in [false, true] {
                         for invited in [false, true] {
                             for ie in &invex {
-                                for limit in [None, Some(1usize), Some(2)] {
+                                for limit in [None, Some(0usize), Some(1), Some(2)] {
                                     for quota in [None, Some(1usize), Some(2)] {
                                         for prejoined in [0usize, 1] {
                                             for member in [false, true] {
@@ -842,6 +932,79 @@ pub fn c09_matrix(full: bool) -> Vec<Script> {
         out.push(Script { cfg: Cfg::default(), users: users(), prelude: used.clone(), slot: 3, line: l.into() });
     }
     out
+}
+
+/// "The new topic is announced to all members and is what later TOPIC, LIST and JOIN replies
+/// show", whatever its length: what the members were told is what is shown afterwards (a
+/// server that enforces its TOPICLEN cuts both or neither).
+pub fn c09_long_topic_case(len: usize) -> Vec<Finding> {
+    let mut out = vec![];
+    let mut w = World::new(Cfg::default().main_config(), 3);
+    macro_rules! m {
+        ($e:expr) => {
+            match $e {
+                Ok(v) => v,
+                Err(e) => return vec![finding("machinery", e.0)],
+            }
+        };
+    }
+    m!(w.register(0, "alice", "au"));
+    m!(w.register(1, "bob", "bu"));
+    m!(w.register(2, "carol", "cu"));
+    m!(w.send(0, "JOIN #c"));
+    m!(w.send(1, "JOIN #c"));
+    w.take_all();
+    let mut text: String = "topic-abcdefghijklmnopqrstuvwxyz".chars().cycle().take(len.saturating_sub(3)).collect();
+    text.push_str("END");
+    m!(w.send(0, &format!("TOPIC #c :{}", text)));
+    let told: Vec<String> = w.take_lines(1).iter().filter_map(|l| crate::canon::parse_server_line(l)).filter(|m| m.cmd == "TOPIC").filter_map(|m| m.params.last().cloned()).collect();
+    w.take_all();
+    if told.len() != 1 || told[0].is_empty() || !text.starts_with(told[0].as_str()) {
+        out.push(finding("topic:announce", format!("TOPIC with a text of {} bytes: the other member was told {:?} texts (lengths {:?})", len, told.len(), told.iter().map(|t| t.len()).collect::<Vec<_>>())));
+        return out;
+    }
+    let told = told[0].clone();
+    let shown = |r: Vec<crate::canon::Msg>, code: &str| -> Option<String> { r.iter().find(|m| m.cmd == code).and_then(|m| m.params.last().cloned()) };
+    let q = shown(m!(query(&mut w, 1, "TOPIC #c")), "332");
+    let l = shown(m!(query(&mut w, 1, "LIST #c")), "322");
+    let j = shown(m!(query(&mut w, 2, "JOIN #c")), "332");
+    for (what, got) in [("TOPIC #c (332)", q), ("LIST #c (322)", l), ("a newcomer's JOIN (332)", j)] {
+        if got.as_deref() != Some(told.as_str()) {
+            out.push(finding("topic:shown", format!("topic of {} bytes: members were told a text of {} bytes, {} shows {} bytes", len, told.len(), what, got.map_or(0, |g| g.len()))));
+        }
+    }
+    for (i, c) in w.conns.iter().enumerate() {
+        if let Life::Panicked(msg) = &c.life {
+            out.push(finding("topic:panic", format!("connection {} aborted: {}", i, msg)));
+        }
+    }
+    out
+}
+
+fn c09_long_topic_part(quick: bool) -> PartResult {
+    let t0 = Instant::now();
+    let name = "fun:c09-long-topic";
+    let mut r = PartResult::new(name, "E-FUN");
+    let mut lens: Vec<usize> = vec![1, 80, 255, 256, 390, 391, 512, 999, 1000, 1001, 1215, 1900, 1980];
+    if !quick {
+        lens.extend(300..=420);
+        lens.extend(990..=1010);
+    }
+    for n in lens {
+        r.evaluations += 1;
+        for f in c09_long_topic_case(n) {
+            r.violations.push(Violation { scenario: name.into(), sig: f.sig, detail: f.detail, history: vec![], transcript: vec![json!({"len": n}).to_string()] });
+        }
+    }
+    r.violations.truncate(40);
+    r.states = r.evaluations;
+    r.transitions = r.evaluations * 4;
+    r.distinct = r.evaluations;
+    r.traces = r.evaluations;
+    r.exhaustive = true;
+    r.samples = vec![json!({"len": 1215, "expect": "TOPIC, LIST and a newcomer's JOIN show the text the members were told"})];
+    r.wall_s = t0.elapsed().as_secs_f64();
+    r
 }
 
 pub fn c09_scn(name: &str, full: bool) -> ChatScn {
@@ -1351,6 +1514,7 @@ pub fn plan(property: &str, quick: bool) -> Plan {
                 Part::Bfs(Box::new(c01_scn("c01-audience", !quick)), lim(if quick { 5 } else { 6 }, 2_000_000, t(40.0, 900.0))),
                 Part::Bfs(Box::new(c01_scn("c01-audience-lists", false)), lim(if quick { 5 } else { 6 }, 2_000_000, t(40.0, 900.0))),
                 Part::Bfs(Box::new(c01_ghost(!quick)), lim(if quick { 6 } else { 8 }, 2_000_000, t(20.0, 600.0))),
+                Part::Custom("fun:c01-long-text".into(), Box::new(move || c01_long_part(quick))),
             ],
         },
         "C10" => Plan {
@@ -1390,6 +1554,7 @@ pub fn plan(property: &str, quick: bool) -> Plan {
             parts: vec![
                 Part::Custom("fun:c09-matrix".into(), Box::new(move || sweep("fun:c09-matrix", c09_matrix(!quick), c09_focus(), vec!["KICK", "TOPIC", "482", "442", "341", "443"]))),
                 Part::Bfs(Box::new(c09_scn("c09-rank", !quick)), lim(if quick { 5 } else { 5 }, 3_000_000, t(40.0, 900.0))),
+                Part::Custom("fun:c09-long-topic".into(), Box::new(move || c09_long_topic_part(quick))),
             ],
         },
         "C15" => Plan {
@@ -1450,6 +1615,8 @@ pub fn scenarios(property: &str) -> Vec<Box<dyn Scenario>> {
 
 pub fn replay_fun(property: &str, scenario: &str, input: &Value) -> Vec<Finding> {
     match (property, scenario) {
+        ("C01", "fun:c01-long-text") => c01_long_case(input["verb"].as_str().unwrap_or("PRIVMSG"), input["target"].as_str().unwrap_or("bob"), input["line_len"].as_u64().unwrap_or(1990) as usize),
+        ("C09", "fun:c09-long-topic") => c09_long_topic_case(input["len"].as_u64().unwrap_or(1215) as usize),
         ("C07", "fun:c07-product") => replay_script(input, &c07_focus()),
         ("C08", "fun:c08-matrix") => replay_script(input, &c08_focus()),
         ("C08", "fun:c08-lists-enforce") => replay_script(input, &c08_enforce_focus()),
